@@ -97,6 +97,15 @@ def NetAddr.bookKey (na : NetAddr) (off : Nat) : String := listenerKey na.networ
 /-- the key the HTTP app's Stop asks `ListenerUsage` about for this socket (`na.Expand()`, `JoinHostPort(0)`) -/
 def NetAddr.usageKey (na : NetAddr) (off : Nat) : String := listenerKey na.network (na.joinHostPort off)
 
+/-- the call site `usageKey` transliterates, in the notation of the regenerated fact
+    `Gen.listenerUsageCalls` (arguments | enclosing range loops): the HTTP app's Stop asks about every
+    socket of every address of every server, `na.Expand()` turning a port range into single-port
+    addresses, whose `JoinHostPort(0)` is `na.JoinHostPort(off)` of the range.
+    `Props.usage_key_expression_matches_source` ties it to the source; the harness's `key` op
+    (harness/internal/c02/key.go) evaluates the same expression on the real `NetworkAddress`. -/
+def usageCallSite : String :=
+  "addr.Network, addr.JoinHostPort(0) | server in app.Servers; na in server.addresses; addr in na.Expand()"
+
 /-- the key of the shared QUIC listener -/
 def NetAddr.quicKey (na : NetAddr) (off : Nat) : String := listenerKey ("quic" ++ na.network) (na.joinHostPort off)
 
